@@ -145,8 +145,9 @@ def oracle(case, impl):
             if r is None or back is None:
                 exp = "err UnitConversionError"
             else:
-                # == of original and converted: via the converter
-                exp = f"ok qty {rat(back)}@{u}:{c} eq=true"
+                # == of original and converted: the converted quantity taken
+                # back into the original's unit (for a consistent table: equal)
+                exp = f"ok qty {rat(back)}@{u}:{c} eq={'true' if back == x else 'false'}"
             if out != exp:
                 site = "table:round-trip"
                 fails.append({"site": site, "msg": f"{o} -> {out}, expected {exp}"})
